@@ -4,6 +4,7 @@ import (
 	"context"
 	stderrors "errors"
 	"sync"
+	"sync/atomic"
 	"time"
 
 	"github.com/pkg/errors"
@@ -111,7 +112,11 @@ func c05Scenario(fault int, withCancel bool) {
 	metrics := hMetrics()
 	e := New(zap.NewNop(), metrics, Config{Pools: []InstancePoolConfig{conf}})
 	ctx, cancel := context.WithCancel(context.Background())
-	cancelled := false
+	var cancelled atomic.Bool
+	// happens-before analysis of every access from here on: what the components did (gun closed,
+	// provider/aggregator returned) must be ordered before Run/Wait return - a clean-up that is
+	// merely likely to be over by then shows up as an unordered write/read pair on any schedule
+	vRaceBegin()
 	if fault == fNone || fault == fAggregatorLate {
 		aggr.metrics = &metrics
 		aggr.callerCancel = &cancelled
@@ -121,12 +126,12 @@ func c05Scenario(fault int, withCancel bool) {
 		cwg.Add(1)
 		go func() {
 			defer cwg.Done()
-			cancelled = true
+			cancelled.Store(true)
 			cancel()
 		}()
 	}
 	err := e.Run(ctx)
-	callerCancelledBeforeReturn := cancelled
+	callerCancelledBeforeReturn := cancelled.Load()
 	// E1: waiting for the engine's background tasks returns (a hang is a deadlock outcome)
 	e.Wait()
 	cwg.Wait()
@@ -183,6 +188,7 @@ func c05Scenario(fault int, withCancel bool) {
 		}
 	}
 	vCheck("E5.instances.finished", metrics.InstanceStart.Get() == metrics.InstanceFinish.Get())
+	vRaceCheck("E5.everything.stopped.before.wait.returns")
 	vReach("end")
 }
 
